@@ -54,6 +54,9 @@ CONFIGS = [
     cfg("onlyPF", N=3, head=1, manual=0, L=3, pay=2, ctx=1, headout=2, feats=(P, G)),
     cfg("onlyPS", N=2, head=1, manual=1, L=2, pay=0, ctx=1, headout=1, feats=(P, S, H, G)),
     cfg("noOutcomes", N=3, head=1, manual=0, L=2, pay=4, ctx=3, inj=1, headout=0, feats=(P, V)),
+    # a payload larger than 255 bytes
+    cfg("bigpay", N=3, head=1, manual=0, L=3, cap=4, pay=7, ctx=1, feats=(P, S, H, G)),
+    cfg("bigpaym", N=2, head=0, manual=1, L=2, pay=7, ctx=3, inj=1, feats=(P, H)),
     # injections whose callbacks are virtual (one and two per state); state classes whose callbacks are const-qualified
     cfg("virt1", N=3, head=1, manual=0, L=3, pay=1, ctx=1, inj=1, virt=1, feats=(P, G)),
     cfg("virt2m", N=4, head=0, manual=1, L=2, pay=0, ctx=2, inj=2, virt=1, feats=(P, S, H)),
